@@ -37,6 +37,14 @@ func ruleReduceDriver(c *Ctx, prop string) {
 	}
 	// ---- R34a
 	nSites := 0
+	// a named forwarder func(t, axes...) { return t.Max(axes...) } stands for the reduction it forwards to: its
+	// uses are judged like uses of the gorgonia function itself
+	forwarder := map[*ssa.Function]bool{}
+	for _, f := range c.libFns {
+		if reductionForwarder(f) {
+			forwarder[f] = true
+		}
+	}
 	for _, f := range c.libFns {
 		for _, b := range f.Blocks {
 			for _, in := range b.Instrs {
@@ -50,11 +58,15 @@ func ruleReduceDriver(c *Ctx, prop string) {
 						continue
 					}
 					fv, ok := (*o).(*ssa.Function)
-					if !ok || fnPkgPath(fv) != pkgTensor || !isReductionName(strings.TrimSuffix(fv.Name(), "$thunk")) {
+					if !ok || !(forwarder[fv] || (fnPkgPath(fv) == pkgTensor && isReductionName(strings.TrimSuffix(fv.Name(), "$thunk")))) {
 						continue
 					}
 					if cl, isCall := in.(ssa.CallInstruction); isCall && cl.Common().Value == ssa.Value(fv) {
-						continue // a direct call: judged below
+						if forwarder[fv] && f != driver {
+							nSites++
+							c.violate("R34", fmt.Sprintf("R34a:reduction-call:%s:%s", fname(f), fv.Name()), c.pos(in.Pos()), "the reduction forwarder "+fv.Name()+" is called outside ops.ReduceAxes: gorgonia only reduces the first, the second and the last axis of a tensor correctly")
+						}
+						continue // a direct call of the gorgonia function: judged below
 					}
 					nSites++
 					okUse := false
@@ -101,6 +113,10 @@ func ruleReduceDriver(c *Ctx, prop string) {
 				}
 				nSites++
 				key := fmt.Sprintf("R34a:reduction-call:%s:%s", fname(f), name)
+				if forwarder[f] {
+					c.discharge("R34", key, c.pos(cl.Pos()), "a forwarder of the reduction (operand and axes passed on as they are); its uses are judged as uses of the reduction")
+					continue
+				}
 				c.decide(f == driver, "R34", key, c.pos(cl.Pos()), "inside the audited driver",
 					"gorgonia's "+name+" is called with axes outside ops.ReduceAxes: gorgonia only reduces the first, the second and the last axis of a tensor correctly (wrong values or an index panic for an axis in between, e.g. axis 2 of a rank-4 tensor)")
 			}
@@ -683,6 +699,13 @@ func (c *Ctx) applyTableOverrides(from int) {
 			if j := strings.LastIndex(rest, ":"); j >= 0 {
 				table = c.tableCovered["R9f:"+rest[:j]]
 			}
+		case strings.HasPrefix(o.Key, "R15:") && (strings.Contains(o.Key, ":binary.") || strings.Contains(o.Key, ":make#") || strings.Contains(o.Key, ":index#") || strings.Contains(o.Key, ":slice#")):
+			// R15:<function>:<kind>#n inside a function that a raw reader table walked in full for every payload
+			// length 0..2w+1 without a panic
+			rest := strings.TrimPrefix(o.Key, "R15:")
+			if j := strings.LastIndex(rest, ":"); j >= 0 {
+				table = c.tableCovered["reader:"+rest[:j]]
+			}
 		case strings.HasPrefix(o.Key, "R9c:") && strings.HasSuffix(o.Key, ":activations-length"):
 			table = c.tableCovered["table:recurrent:"+strings.TrimSuffix(strings.TrimPrefix(o.Key, "R9c:"), ":activations-length")]
 		case strings.HasPrefix(o.Key, "R12:P"):
@@ -690,7 +713,7 @@ func (c *Ctx) applyTableOverrides(from int) {
 			parts := strings.Split(o.Key, ":")
 			for _, nm := range []string{"RNN", "GRU", "LSTM"} {
 				for _, pt := range parts[2:] {
-					if pt == nm {
+					if pt == nm || strings.Contains(pt, "opset13."+nm+")") {
 						table = c.tableCovered["table:recurrent:"+nm]
 					}
 				}
@@ -711,8 +734,27 @@ func (c *Ctx) applyTableOverrides(from int) {
 			}
 		case o.Key == "R5:M10":
 			table = c.tableCovered["table:opset"]
+		case o.Key == "R31:gather:G2":
+			// output shape = data[:axis] ++ indices.shape ++ data[axis+1:]: the axis table of Gather prescribes exactly
+			// that for index tensors of rank 0..2 on every axis of operands of rank 1..3 (with unit extents)
+			table = c.tableCovered["R9f:Gather.axis:ret"]
+			if table == "" {
+				table = c.tableCovered["R9f:Gather.axis:out"] // that tensor being the output is G3's clause
+			}
+		case strings.HasPrefix(o.Key, "R11:K1:"), strings.HasPrefix(o.Key, "R11:K2:"), strings.HasPrefix(o.Key, "R11:K3:"), strings.HasPrefix(o.Key, "R11:K6:"),
+			strings.HasPrefix(o.Key, "R11:K7:"), strings.HasPrefix(o.Key, "R11:K8:"), strings.HasPrefix(o.Key, "R11:K9:"), strings.HasPrefix(o.Key, "R11:K10:"):
+			// index kinds, loop/coordinate pairing, window slicers, kernel-shape order, pad signs, extent formulas and
+			// pad order, and how window and kernel slice are paired (K10: kernels with unit extents and several channels
+			// are among the cells): all visible in the elements of the provenance table (unequal extents, strides, pads
+			// and dilations per axis, batch, channels and kernels all different). K4 (auto_pad modes, VALID is not in
+			// the table) stays with the structural rule.
+			table = c.tableCovered["table:conv"]
 		case strings.HasPrefix(o.Key, "R6:T6:"), strings.HasPrefix(o.Key, "R6:T7:"):
 			table = c.tableCovered["table:gate"]
+		case o.Key == "R6:T5:RNN" || o.Key == "R6:T5:GRU" || o.Key == "R6:T5:LSTM":
+			// the recurrent table walks Apply with every optional input absent in some cell: a method call on the
+			// nil value would end that walk
+			table = c.tableCovered["table:recurrent:"+strings.TrimPrefix(o.Key, "R6:T5:")]
 		}
 		if table == "" {
 			continue
@@ -760,4 +802,55 @@ func (c *Ctx) paramOnlyToDriver(h *ssa.Function, k int, driver *ssa.Function, de
 		}
 	}
 	return n > 0
+}
+
+// reductionForwarder: an unexported func(t *tensor.Dense, axes ...int) (*tensor.Dense, error) whose body is the one
+// gorgonia reduction of t along axes, returned as it is.
+func reductionForwarder(f *ssa.Function) bool {
+	if f.Parent() != nil && len(f.FreeVars) > 0 {
+		return false
+	}
+	if f.Object() != nil && f.Object().Exported() {
+		return false
+	}
+	if len(f.Blocks) != 1 || len(f.Params) != 2 || f.Signature.Recv() != nil {
+		return false
+	}
+	var call *ssa.Call
+	for _, in := range f.Blocks[0].Instrs {
+		switch x := in.(type) {
+		case *ssa.DebugRef, *ssa.Extract, *ssa.Return:
+		case *ssa.Call:
+			if call != nil {
+				return false
+			}
+			call = x
+		default:
+			return false
+		}
+	}
+	if call == nil {
+		return false
+	}
+	name, recv := tensorMethod(call)
+	args := call.Common().Args
+	if name == "" {
+		if sc := call.Common().StaticCallee(); sc != nil && fnPkgPath(sc) == pkgTensor && sc.Signature.Recv() == nil && isReductionName(sc.Name()) && len(args) == 2 {
+			name, recv = sc.Name(), args[0]
+		}
+	}
+	if !isReductionName(name) || recv != ssa.Value(f.Params[0]) || len(args) == 0 || args[len(args)-1] != ssa.Value(f.Params[1]) {
+		return false
+	}
+	rets := returnsOf(f)
+	if len(rets) != 1 || len(rets[0].Results) != 2 {
+		return false
+	}
+	for i, r := range rets[0].Results {
+		ex, ok := r.(*ssa.Extract)
+		if !ok || ex.Tuple != ssa.Value(call) || ex.Index != i {
+			return false
+		}
+	}
+	return true
 }
